@@ -61,16 +61,27 @@ func main() {
 	}
 	cfg := &packages.Config{Mode: packages.NeedName | packages.NeedFiles | packages.NeedSyntax | packages.NeedTypes | packages.NeedTypesInfo | packages.NeedImports | packages.NeedDeps | packages.NeedCompiledGoFiles,
 		Dir: *repo, Env: append(os.Environ(), "GOFLAGS=-mod=mod", "GOPROXY=off", "GOSUMDB=off")}
-	pkgs, err := packages.Load(cfg, pats...)
-	if err != nil {
-		die("load: %v", err)
-	}
 	ov := map[string]map[string]string{}
 	if b, err := os.ReadFile(*ovf); err == nil {
 		json.Unmarshal(b, &ov)
 	}
 	if ov["Replace"] == nil {
 		ov["Replace"] = map[string]string{}
+	}
+	// files already replaced by an earlier overlay entry are read in their replaced form,
+	// so the rewrite composes with it instead of discarding it
+	cfg.Overlay = map[string][]byte{}
+	for path, repl := range ov["Replace"] {
+		if repl == "" || !strings.HasSuffix(path, ".go") {
+			continue
+		}
+		if b, err := os.ReadFile(repl); err == nil {
+			cfg.Overlay[path] = b
+		}
+	}
+	pkgs, err := packages.Load(cfg, pats...)
+	if err != nil {
+		die("load: %v", err)
 	}
 	for _, p := range pkgs {
 		if len(p.Errors) > 0 {
@@ -80,9 +91,6 @@ func main() {
 			path := p.CompiledGoFiles[i]
 			if strings.HasSuffix(path, "_test.go") || skip[filepath.Base(path)] {
 				continue
-			}
-			if prev, ok := ov["Replace"][path]; ok && prev != "" {
-				die("%s is already replaced by another overlay entry (%s)", path, prev)
 			}
 			changed := rewriteFile(p, f, *vosPath != "")
 			if !changed {
